@@ -672,12 +672,13 @@ static bool compile_builtin_call(CG *cg, ASTNode *node) {
         /* min(a,b) = if a < b then a else b */
         compile_expr(cg, args[0]);
         compile_expr(cg, args[1]);
-        /* Stack: a b */
+        /* Stack: a b   (ROT3 moves the top element below the next two) */
         emit_op(cg, OP_DUP);     /* a b b */
+        emit_op(cg, OP_ROT3);    /* b a b */
         emit_op(cg, OP_ROT3);    /* b b a */
         emit_op(cg, OP_DUP);     /* b b a a */
-        emit_op(cg, OP_ROT3);    /* b a a b */
-        emit_op(cg, OP_LT);      /* b a (a<b) */
+        emit_op(cg, OP_ROT3);    /* b a b a */
+        emit_op(cg, OP_GT);      /* b a (b>a) */
         uint32_t jf_instr = cg->code_size;
         uint32_t jf_off = emit_op(cg, OP_JMP_FALSE, (int32_t)0);
         /* a < b: keep a, drop b */
@@ -694,11 +695,12 @@ static bool compile_builtin_call(CG *cg, ASTNode *node) {
     if (strcmp(name, "max") == 0 && argc == 2) {
         compile_expr(cg, args[0]);
         compile_expr(cg, args[1]);
-        emit_op(cg, OP_DUP);
-        emit_op(cg, OP_ROT3);
-        emit_op(cg, OP_DUP);
-        emit_op(cg, OP_ROT3);
-        emit_op(cg, OP_GT);
+        emit_op(cg, OP_DUP);     /* a b b */
+        emit_op(cg, OP_ROT3);    /* b a b */
+        emit_op(cg, OP_ROT3);    /* b b a */
+        emit_op(cg, OP_DUP);     /* b b a a */
+        emit_op(cg, OP_ROT3);    /* b a b a */
+        emit_op(cg, OP_LT);      /* b a (b<a) */
         uint32_t jf_instr = cg->code_size;
         uint32_t jf_off = emit_op(cg, OP_JMP_FALSE, (int32_t)0);
         emit_op(cg, OP_SWAP);
